@@ -21,6 +21,9 @@ Oracle = acceptance by `vf.ref.rom_mbi` (bytes only; hashlib / hmac / cryptograp
   C02.flip-accepted   a single-bit corruption inside an authenticated region is accepted by the model
                       (= a byte the ROM authenticates lies outside what was signed / hashed / MACed, or
                       the model is vacuous there).  Key store bytes are unauthenticated by format.
+  C02.history-accept  the image exported after one member of a live object was replaced fails the ROM checks
+  C02.wrong-key-accepted / -exception   an export attempt with a signing key that does not belong to the certificate
+                      block is neither refused with SPSDKError nor verifiable under the key in the image
 Calibration: every golden MBI of the repository the model can describe must be accepted first.
 """
 from __future__ import annotations
@@ -237,6 +240,17 @@ def _decrypt_clause(case: dict, ob: dict, r: dict, tag: str) -> list:
     V = []
     if "plaintext" not in r:
         return [("C02.decrypt", f"{tag};no-key", "model could not decrypt: no key")]
+    # the whole encrypted range is ONE AES-CTR stream (vf.ref.rom_mbi); every part of the plaintext is
+    # compared with what was configured: application, relocation images / entries, TrustZone block
+    exp = ob["exp"]
+    if "app" in r and M.mask_words(r["app"]) != M.mask_words(M.align4(exp["payload"])):
+        V.append(("C02.decrypt", f"{tag};app-vs-payload", "decrypted application is not the configured payload"))
+    if exp.get("reloc"):
+        got = [(e["dst"], e["image"]) for e in r.get("reloc", {}).get("entries", [])]
+        if got != [(e["dst"], e["data"]) for e in exp["reloc"]]:
+            V.append(("C02.decrypt", f"{tag};reloc-vs-config", "decrypted relocation table is not the configured one"))
+    if r["tz"] != (exp.get("tz") or b""):
+        V.append(("C02.decrypt", f"{tag};tz-vs-config", "decrypted TrustZone block is not the configured preset"))
     c2 = dict(case, auth="signed", opts={k: v for k, v in case.get("opts", {}).items() if k not in ("iv", "api")})
     c2.pop("classify", None)
     try:
@@ -268,9 +282,57 @@ def _decrypt_clause(case: dict, ob: dict, r: dict, tag: str) -> list:
 # worker + enumeration
 
 
+def judge_history(case: dict, ob: dict) -> list:
+    """The image exported after ONE member was replaced on a live object passes the ROM checks."""
+    from vf.ref.rom_mbi import Reject
+
+    if ob["status"] != "ok":
+        return []
+    tag = M.path_tag(ob["exp"]["triple"])
+    V = []
+    for name, exp_key, img_key in (("before", "exp_a", "img1b"), ("after", "exp", "image")):
+        o2 = {"exp": ob[exp_key], "image": ob[img_key]}
+        try:
+            _accept(o2, M.fixture_rkth(o2["exp"]))
+        except Reject as e:
+            V.append(("C02.history-accept", f"{tag};{ob['step']};{name};{e.stage}", str(e)))
+    return V
+
+
+def judge_wrongkey(case: dict, ob: dict) -> tuple[list, dict]:
+    """Signing key that does not match the certificate block: every attempt is refused, or what is handed
+    out verifies under the key carried in the certificate block like any other export."""
+    from vf.ref.rom_mbi import Reject
+
+    tag = M.path_tag(ob["exp"]["triple"])
+    V = []
+    cnt = {"wrongkey_cases": 1}
+    for a in ob["attempts"]:
+        if a["status"] == "refused":
+            cnt["wrongkey_attempts_refused"] = cnt.get("wrongkey_attempts_refused", 0) + 1
+        elif a["status"] == "exception":
+            e = a["error"]
+            V.append(("C02.wrong-key-exception", f"{tag};{a['name']};{e['type']}@{e['where']}", e["msg"]))
+        else:
+            try:
+                _accept({"exp": ob["exp"], "image": a["image"]}, M.fixture_rkth(ob["exp"]))
+            except Reject as e:
+                V.append(("C02.wrong-key-accepted", f"{tag};{a['name']};{e.stage}",
+                          f"export with a signing key that does not belong to the certificate block was not refused "
+                          f"and the image fails the ROM check: {e}"))
+    return V, cnt
+
+
 def w_case(case: dict) -> dict:
     quiet()
     wd = workdir()
+    if "hist" in case:
+        ob = M.execute_history(case, wd, case.get("seed", 0))
+        return {"viol": judge_history(case, ob), "count": {"history_cases": 1}, "status": ob["status"]}
+    if case.get("wrongkey"):
+        ob = M.execute_wrongkey(case, wd, case.get("seed", 0))
+        viol, cnt = judge_wrongkey(case, ob)
+        return {"viol": viol, "count": cnt, "status": "ok"}
     ob = M.execute(case, wd, case.get("seed", 0), want=())
     viol, cnt = judge(case, ob, case.get("flips"))
     res: dict[str, Any] = {"viol": viol, "count": cnt, "status": ob["status"]}
@@ -309,6 +371,10 @@ def run(ctx) -> None:
                    "<= 0x200 bytes payload, of one bit in every byte (lattice cases with <= 1 "
                    "departure), else first / middle / last byte of every region")
                 + ". distinct/non-trivial = SHA-1 of an exported image the builder accepted")
+    ctx.rule += ("; alignment family ({custom TrustZone, relocation table, both} x application lengths 0x1F4..0x200), object "
+                 "histories (replace one member on a live object, export again) and wrong-key attempts (provider whose key "
+                 "does not match the certificate block: first export, retry, second image with the same provider object; RSA / "
+                 "cert block v1 and ECC / cert block v2.1 with and without ISK) on class representatives")
     ctx.rule += ("; option dimensions include the source of builder-chosen values: counter IV explicit / omitted in the "
                  "configuration / omitted in the class-constructor API (owned RNG keeps exports reproducible), and the "
                  "API used to hand over the settings (load_from_config / class constructor)")
@@ -407,6 +473,32 @@ def run(ctx) -> None:
     if done < len(lc):
         ctx.cov["lattice_cases_planned"] = len(lc)
     for c in lc[:2] + lc[-2:]:
+        ctx.sample(c)
+    # ---- alignment of the parts behind the application, object histories, wrong-key attempts ------
+    from vf.props.c01 import alignment_cases, history_cases
+
+    ac = [dict(c, flips="fml") for c in alignment_cases(ctx, classes, protected_only=True)]
+    hc = [c for c in history_cases(ctx, classes, protected_only=True) if c["hist"] != "none"]
+    wc = []
+    seen_kind: set = set()
+    for key, members in sorted(classes.items()):
+        fam, tgt, auth = members[0]
+        t = M.triple(fam, "latest", tgt, auth)
+        facts = M.dev_facts(t)
+        if facts["cert"] not in ("v1", "v21") or facts["kind"] != "ivt":
+            continue
+        variants = [{}] + ([{"isk": "p256"}] if facts["cert"] == "v21" else [])
+        if quick and (facts["cert"], facts["hmac_hdr"], facts["manifest_crc"], auth) in seen_kind:
+            continue  # quick: one representative per certificate-block kind / export path
+        seen_kind.add((facts["cert"], facts["hmac_hdr"], facts["manifest_crc"], auth))
+        for opts in variants:
+            wc.append({"fam": fam, "rev": "latest", "tgt": tgt, "auth": auth, "len": 0x1F8, "content": "seeded",
+                       "opts": opts, "seed": ctx.seed, "wrongkey": True})
+    for fam_cases, name in ((ac, "alignment_cases"), (hc, "history_cases_planned"), (wc, "wrongkey_cases_planned")):
+        for case, res in ctx.pool_map(w_case, fam_cases, timeout=300, chunksize=2, check_det=0):
+            ctx.absorb(case, res)
+        ctx.count(name, len(fam_cases))
+    for c in ac[:1] + hc[:1] + wc[:2]:
         ctx.sample(c)
     ctx.cov["protected_triples"] = len(protected_triples())
     ctx.cov["equivalence_classes"] = {k_: {"size": len(v), "representative": list(v[0])}
